@@ -145,6 +145,8 @@ pub struct Opts<'o> {
     pub nts: &'o [usize],
     pub force_exact: bool,
     pub strategies: &'o [Strategy],
+    /// one in `growth_one_in` mode-S cases uses the "growth regime" (0 = never)
+    pub growth_one_in: u64,
 }
 
 impl<'s> Gen<'s> {
@@ -214,6 +216,27 @@ impl<'s> Gen<'s> {
         };
         let stages = stage_specs(r, info.shape, len, c);
         let linear_k = if src == Src::IterUnknown { 14 } else { r.range(2, 5) };
+        // "growth regime": Min(1)/Auto chunks, many threads, enough input for workers spawned after the lag period to
+        // get grown chunk sizes, so that chunk-size-1 workers and chunked workers coexist in one run
+        let growth = mode == Mode::S && !o.force_exact && !self.small && o.growth_one_in > 0 && r.chance(1, o.growth_one_in);
+        let (nt, cs, len, strategy) = if growth {
+            let nt = r.pick(&[6usize, 8, 8, 16]);
+            let cs = if r.chance(1, 2) { Cs::Min(1) } else { Cs::Auto };
+            let len = if src == Src::Array { 8 } else { r.range(20, 72) };
+            let st = r.pick(&[Strategy::LagGrow, Strategy::LagGrow, Strategy::LagGrow, Strategy::StarveOne, Strategy::SpawnerStarved, Strategy::Pct]);
+            (nt, cs, len, st)
+        } else {
+            (nt, cs, len, r.pick(o.strategies))
+        };
+        let stages = if growth { stage_specs(r, info.shape, len, 4) } else { stages };
+        let growth_pred = if growth && len >= 12 {
+            let g0 = r.range(1, 6) as u64;
+            Some(Keep::Origins(vec![g0, r.range(8, len - 1) as u64, r.range(8, len - 1) as u64, r.range(8, len - 1) as u64]))
+        } else {
+            None
+        };
+        let slow_source = mode == Mode::F && src.is_probe() && !self.small && r.chance(1, 4);
+        let (len, nt) = if slow_source { (len.min(64), if nt == 0 || nt >= 5 { nt } else { r.pick(&[5usize, 6, 8, 16]) }) } else { (len, nt) };
         Case {
             seed: r.next(),
             src,
@@ -221,7 +244,10 @@ impl<'s> Gen<'s> {
             shape: info.shape.to_string(),
             stages,
             term,
-            pred: pred_spec(r, len, c),
+            pred: match growth_pred {
+                Some(p) if r.chance(2, 3) => p,
+                _ => pred_spec(r, len, c),
+            },
             nt,
             cs,
             set_params: true,
@@ -231,14 +257,16 @@ impl<'s> Gen<'s> {
             ties: r.chance(1, 2),
             linear_k,
             mode,
-            strategy: r.pick(o.strategies),
+            strategy,
             sched_seed: r.next(),
+            script: vec![],
             faults: vec![],
             endless: false,
             budget: 0,
             noise: r.below(3) as u8,
             val_seed: r.next(),
             probe_spin: if r.chance(1, 3) { r.below(300) as u32 } else { 0 },
+            probe_sleep_us: if slow_source { r.range(20, 300) as u32 } else { 0 },
         }
     }
 
@@ -286,6 +314,7 @@ impl<'s> Gen<'s> {
                     shape_ok: &any_shape,
                     nts: &all_nts,
                     force_exact: false,
+                    growth_one_in: 5,
                     strategies: &ALL_STRATEGIES,
                 },
             ),
@@ -301,6 +330,7 @@ impl<'s> Gen<'s> {
                         shape_ok: &any_shape,
                         nts: &all_nts,
                         force_exact: false,
+                        growth_one_in: 3,
                         strategies: &[
                             Strategy::Uniform,
                             Strategy::NewestFirst,
@@ -329,6 +359,7 @@ impl<'s> Gen<'s> {
                         shape_ok: &any_shape,
                         nts: &all_nts,
                         force_exact: false,
+                        growth_one_in: 5,
                         strategies: &ALL_STRATEGIES,
                     },
                 );
@@ -355,6 +386,7 @@ impl<'s> Gen<'s> {
                     shape_ok: &any_shape,
                     nts: &all_nts,
                     force_exact: false,
+                    growth_one_in: 6,
                     strategies: &ALL_STRATEGIES,
                 },
             ),
@@ -370,6 +402,7 @@ impl<'s> Gen<'s> {
                         shape_ok: &any_shape,
                         nts: &all_nts,
                         force_exact: false,
+                        growth_one_in: 6,
                         strategies: &ALL_STRATEGIES,
                     },
                 );
@@ -392,6 +425,7 @@ impl<'s> Gen<'s> {
                         shape_ok: if pick_map_only { &map_only } else { &any_shape },
                         nts: &all_nts,
                         force_exact: false,
+                        growth_one_in: 8,
                         strategies: &ALL_STRATEGIES,
                     },
                 );
@@ -418,6 +452,7 @@ impl<'s> Gen<'s> {
                     shape_ok: &any_shape,
                     nts: &all_nts,
                     force_exact: false,
+                    growth_one_in: 6,
                     strategies: &ALL_STRATEGIES,
                 },
             ),
@@ -433,6 +468,7 @@ impl<'s> Gen<'s> {
                         shape_ok: &any_shape,
                         nts: &[1, 2, 2, 3, 3, 4, 5, 6, 7, 8, 16],
                         force_exact: false,
+                        growth_one_in: 8,
                         strategies: &[Strategy::SpawnerFirst, Strategy::SpawnerStarved, Strategy::Uniform, Strategy::Pct, Strategy::NewestFirst, Strategy::RoundRobin],
                     },
                 );
@@ -457,6 +493,7 @@ impl<'s> Gen<'s> {
                     shape_ok: &any_shape,
                     nts: &[1],
                     force_exact: false,
+                    growth_one_in: 0,
                     strategies: &[Strategy::Uniform],
                 },
             ),
@@ -473,6 +510,7 @@ impl<'s> Gen<'s> {
                         shape_ok: &no_cuts,
                         nts: &[2, 2, 3, 3, 4, 5, 6, 8],
                         force_exact: false,
+                        growth_one_in: 0,
                         strategies: &ALL_STRATEGIES,
                     },
                 );
@@ -540,6 +578,7 @@ impl<'s> Gen<'s> {
                         shape_ok: &any_shape,
                         nts: &[0, 2, 3, 4, 6, 6, 7, 8, 8, 16],
                         force_exact: true,
+                        growth_one_in: 0,
                         strategies: &[Strategy::SpawnerStarved, Strategy::SpawnerStarved, Strategy::NewestStarved, Strategy::Uniform, Strategy::Sticky, Strategy::Pct, Strategy::RoundRobin, Strategy::OldestFirst],
                     },
                 );
@@ -569,6 +608,7 @@ impl<'s> Gen<'s> {
                         shape_ok: &any_shape,
                         nts: &all_nts,
                         force_exact: false,
+                        growth_one_in: 6,
                         strategies: &ALL_STRATEGIES,
                     },
                 );
@@ -593,6 +633,7 @@ impl<'s> Gen<'s> {
                         shape_ok: &any_shape,
                         nts: &all_nts,
                         force_exact: false,
+                        growth_one_in: 6,
                         strategies: &ALL_STRATEGIES,
                     },
                 );
@@ -639,6 +680,56 @@ impl<'s> Gen<'s> {
         };
         if c.term == Term::Sum && self.find(c.src, &c.shape).map(|s| s.ref_elem).unwrap_or(false) {
             c.term = Term::Reduce;
+        }
+        Some(c)
+    }
+
+    /// a small variant of a generated case for the bounded-exhaustive schedule exploration
+    pub fn small_case_at(&self, prop: &str, idx: u64, seed: u64) -> Option<Case> {
+        let mut c = self.case_at(prop, idx, seed)?;
+        if c.endless || !c.setters.is_empty() {
+            return None;
+        }
+        let mut r = Rng::new(mix64(seed ^ idx.wrapping_mul(77) ^ 0xE8_9107E));
+        let fanout = c.stages.iter().filter(|s| s.kind == Kind::FlatMap).count();
+        let max_len = match (c.stages.len(), fanout) {
+            (0..=1, 0) => 8,
+            (_, 0) => 6,
+            (_, 1) => 5,
+            _ => 4,
+        };
+        if c.src == Src::Array {
+            return None;
+        }
+        c.len = r.range(2, max_len);
+        c.nt = r.range(2, 3);
+        c.cs = match r.below(4) {
+            0 => Cs::Exact(1),
+            1 => Cs::Exact(2),
+            2 => Cs::Exact(3),
+            _ => Cs::Min(1),
+        };
+        c.mode = Mode::S;
+        c.strategy = Strategy::Script;
+        c.script = vec![];
+        c.noise = 0;
+        c.probe_spin = 0;
+        c.pre_len = c.pre_len.min(3);
+        for st in c.stages.iter_mut() {
+            st.fan_base = st.fan_base.min(1);
+            st.fan_var = st.fan_var.min(1);
+        }
+        // faults / predicates / filters refer to positions: keep them inside the shrunk input
+        for f in c.faults.iter_mut() {
+            f.trigger = match f.trigger {
+                Trigger::OnId(id) => Trigger::OnId(((id >> 12) % c.len as u64) << 12),
+                Trigger::OnCall(k) => Trigger::OnCall(k % c.len as u64),
+            };
+        }
+        if let Keep::Origins(v) = &mut c.pred {
+            for o in v.iter_mut() {
+                *o %= c.len as u64;
+            }
         }
         Some(c)
     }
@@ -704,12 +795,14 @@ impl<'s> Gen<'s> {
             mode: Mode::F,
             strategy: Strategy::Uniform,
             sched_seed: 0,
+            script: vec![],
             faults: vec![],
             endless: false,
             budget: 0,
             noise: 0,
             val_seed: r.next(),
             probe_spin: 0,
+            probe_sleep_us: 0,
         }
     }
 
@@ -854,12 +947,14 @@ impl<'s> Gen<'s> {
             mode: Mode::F,
             strategy: Strategy::Uniform,
             sched_seed: 0,
+            script: vec![],
             faults: vec![],
             endless: false,
             budget: 0,
             noise: 0,
             val_seed: r.next(),
             probe_spin: 0,
+            probe_sleep_us: 0,
         })
     }
 
@@ -894,12 +989,14 @@ impl<'s> Gen<'s> {
             mode: Mode::F,
             strategy: Strategy::Uniform,
             sched_seed: 0,
+            script: vec![],
             faults: vec![],
             endless: false,
             budget: 0,
             noise: 0,
             val_seed: r.next(),
             probe_spin: 0,
+            probe_sleep_us: 0,
         };
         // filters that keep most elements, so that downstream stages have something to (not) do
         for st in c.stages.iter_mut() {
